@@ -403,5 +403,244 @@ theorem exchange (h : Inv c B A) {i j : Nat} {x y x' y' : Arr} (hij : i ≠ j)
 
 end Inv
 
+namespace InvA
+
+variable {c : Cfg} {B : List Block} {A : List (Option Arr)}
+
+theorem init (c : Cfg) (p : Nat) : InvA c [] (List.replicate p none) where
+  ownerEq := by intro i a b blk _ _ _ hB; simp at hB
+  freedEq := by intro b blk hB; simp at hB
+
+theorem set_nonowning (h : InvA c B A) {i : Nat} {new : Option Arr} (hnew : ∀ a, new = some a → a.n = 0) :
+    InvA c B (A.set i new) where
+  ownerEq := by
+    intro k a b blk hk hn hb hB hf
+    rw [List.getElem?_set] at hk
+    split at hk
+    · split at hk
+      · have := hnew a (by simpa using hk); omega
+      · simp at hk
+    · exact h.ownerEq k a b blk hk hn hb hB hf
+  freedEq := h.freedEq
+
+theorem install (h : InvA c B A) (hI : Inv c B A) {i : Nat} {a : Arr} {blk : Block}
+    (hbase : a.base = some B.length) (hfr : blk.freed = false) (heq : c.eqv blk.alloc a.alloc = true) :
+    InvA c (B ++ [blk]) (A.set i (some a)) where
+  ownerEq := by
+    intro k x b bk hk hn hb hB hf
+    rw [List.getElem?_set] at hk
+    split at hk
+    · split at hk
+      · have hx : x = a := by simpa using hk.symm
+        subst hx
+        rw [hbase] at hb
+        have hbe : b = B.length := by simpa using hb.symm
+        subst hbe
+        rw [List.getElem?_concat_length] at hB
+        have : bk = blk := by simpa using hB.symm
+        subst this
+        exact heq
+      · simp at hk
+    · obtain ⟨b2, bk2, hb2, hB2, -, -, -⟩ := hI.valid k x hk hn
+      have hbb : b = b2 := by rw [hb] at hb2; simpa using hb2
+      subst hbb
+      have hlt : b < B.length := (List.getElem?_eq_some_iff.mp hB2).1
+      rw [List.getElem?_append_left hlt] at hB
+      exact h.ownerEq k x b bk hk hn hb hB hf
+  freedEq := by
+    intro b bk hB hf
+    by_cases hb : b < B.length
+    · rw [List.getElem?_append_left hb] at hB
+      exact h.freedEq b bk hB hf
+    · have hb2 : b < (B ++ [blk]).length := (List.getElem?_eq_some_iff.mp hB).1
+      have hbe : b = B.length := by simp at hb2; omega
+      subst hbe
+      rw [List.getElem?_concat_length] at hB
+      have : bk = blk := by simpa using hB.symm
+      subst this
+      rw [hfr] at hf
+      cases hf
+
+/-- a returned (or otherwise unowned) block is appended: nothing points to it -/
+theorem append_block (h : InvA c B A) (hI : Inv c B A) {blk : Block}
+    (heq : blk.freed = true → c.eqv blk.freedBy blk.alloc = true) : InvA c (B ++ [blk]) A where
+  ownerEq := by
+    intro k x b bk hk hn hb hB hf
+    obtain ⟨b2, bk2, hb2, hB2, -, -, -⟩ := hI.valid k x hk hn
+    have hbb : b = b2 := by rw [hb] at hb2; simpa using hb2
+    subst hbb
+    have hlt : b < B.length := (List.getElem?_eq_some_iff.mp hB2).1
+    rw [List.getElem?_append_left hlt] at hB
+    exact h.ownerEq k x b bk hk hn hb hB hf
+  freedEq := by
+    intro b bk hB hf
+    by_cases hb : b < B.length
+    · rw [List.getElem?_append_left hb] at hB
+      exact h.freedEq b bk hB hf
+    · have hb2 : b < (B ++ [blk]).length := (List.getElem?_eq_some_iff.mp hB).1
+      have hbe : b = B.length := by simp at hb2; omega
+      subst hbe
+      rw [List.getElem?_concat_length] at hB
+      have : bk = blk := by simpa using hB.symm
+      subst this
+      exact heq hf
+
+theorem release (h : InvA c B A) (hI : Inv c B A) {i b : Nat} {a : Arr} {new : Option Arr} {blk blk' : Block}
+    (hi : A[i]? = some (some a)) (hn : 0 < a.n) (hb : a.base = some b) (hB : B[b]? = some blk) (hf : blk.freed = false)
+    (hfr' : blk'.freed = true) (heq : c.eqv blk'.freedBy blk'.alloc = true) (hnew : ∀ x, new = some x → x.n = 0) :
+    InvA c (B.set b blk') (A.set i new) where
+  ownerEq := by
+    intro k x b2 bk hk hxn hb2 hB2 hf2
+    rw [List.getElem?_set] at hk
+    split at hk
+    · split at hk
+      · have := hnew x (by simpa using hk); omega
+      · simp at hk
+    · rename_i hik
+      have hne : x.base ≠ some b := hI.other_block_ne (Ne.symm hik) hi hn hb hB hf hk hxn
+      have hbb : b ≠ b2 := by intro e; subst e; exact hne hb2
+      rw [List.getElem?_set_ne hbb] at hB2
+      exact h.ownerEq k x b2 bk hk hxn hb2 hB2 hf2
+  freedEq := by
+    intro b2 bk hB2 hf2
+    rw [List.getElem?_set] at hB2
+    split at hB2
+    · split at hB2
+      · have : bk = blk' := by simpa using hB2.symm
+        subst this; exact heq
+      · simp at hB2
+    · exact h.freedEq b2 bk hB2 hf2
+
+theorem relabel (h : InvA c B A) {i : Nat} {a a' : Arr} (hi : A[i]? = some (some a))
+    (hbase : a'.base = a.base) (hn : a'.n = a.n)
+    (heq : ∀ (b : Nat) (blk : Block), 0 < a.n → a.base = some b → B[b]? = some blk → blk.freed = false → c.eqv blk.alloc a'.alloc = true) :
+    InvA c B (A.set i (some a')) where
+  ownerEq := by
+    intro k x b blk hk hxn hb hB hf
+    rw [List.getElem?_set] at hk
+    split at hk
+    · split at hk
+      · have hx : x = a' := by simpa using hk.symm
+        subst hx
+        exact heq b blk (by omega) (by rw [← hbase]; exact hb) hB hf
+      · simp at hk
+    · exact h.ownerEq k x b blk hk hxn hb hB hf
+  freedEq := h.freedEq
+
+theorem set_cells (h : InvA c B A) {b : Nat} {blk : Block} {cs : List Cell} (hB : B[b]? = some blk) :
+    InvA c (B.set b { blk with cells := cs }) A where
+  ownerEq := by
+    intro k x b2 bk hk hxn hb2 hB2 hf2
+    rw [List.getElem?_set] at hB2
+    split at hB2
+    · split at hB2
+      · rename_i hbb _
+        subst hbb
+        have : bk = { blk with cells := cs } := by simpa using hB2.symm
+        subst this
+        exact h.ownerEq k x b blk hk hxn hb2 hB hf2
+      · simp at hB2
+    · exact h.ownerEq k x b2 bk hk hxn hb2 hB2 hf2
+  freedEq := by
+    intro b2 bk hB2 hf2
+    rw [List.getElem?_set] at hB2
+    split at hB2
+    · split at hB2
+      · rename_i hbb _
+        subst hbb
+        have : bk = { blk with cells := cs } := by simpa using hB2.symm
+        subst this
+        exact h.freedEq b blk hB hf2
+      · simp at hB2
+    · exact h.freedEq b2 bk hB2 hf2
+
+theorem transfer (h : InvA c B A) {i j : Nat} {y x' y' : Arr} (hij : i ≠ j) (hj : A[j]? = some (some y))
+    (hxb : x'.base = y.base) (hxn : x'.n = y.n) (hyn : y'.n = 0)
+    (heq : ∀ (b : Nat) (blk : Block), 0 < y.n → y.base = some b → B[b]? = some blk → blk.freed = false → c.eqv blk.alloc x'.alloc = true) :
+    InvA c B ((A.set i (some x')).set j (some y')) where
+  ownerEq := by
+    intro k x b blk hk hn hb hB hf
+    rw [List.getElem?_set] at hk
+    split at hk
+    · split at hk
+      · have hx : x = y' := by simpa using hk.symm
+        subst hx; omega
+      · simp at hk
+    · rw [List.getElem?_set] at hk
+      split at hk
+      · split at hk
+        · have hx : x = x' := by simpa using hk.symm
+          subst hx
+          exact heq b blk (by omega) (by rw [← hxb]; exact hb) hB hf
+        · simp at hk
+      · exact h.ownerEq k x b blk hk hn hb hB hf
+  freedEq := h.freedEq
+
+theorem exchange (h : InvA c B A) {i j : Nat} {x y x' y' : Arr} (hij : i ≠ j)
+    (hi : A[i]? = some (some x)) (hj : A[j]? = some (some y))
+    (hxb : x'.base = y.base) (hxn : x'.n = y.n) (hyb : y'.base = x.base) (hyn : y'.n = x.n)
+    (heqx : ∀ (b : Nat) (blk : Block), 0 < y.n → y.base = some b → B[b]? = some blk → blk.freed = false → c.eqv blk.alloc x'.alloc = true)
+    (heqy : ∀ (b : Nat) (blk : Block), 0 < x.n → x.base = some b → B[b]? = some blk → blk.freed = false → c.eqv blk.alloc y'.alloc = true) :
+    InvA c B ((A.set i (some x')).set j (some y')) where
+  ownerEq := by
+    intro k z b blk hk hn hb hB hf
+    rw [List.getElem?_set] at hk
+    split at hk
+    · split at hk
+      · have hz : z = y' := by simpa using hk.symm
+        subst hz
+        exact heqy b blk (by omega) (by rw [← hyb]; exact hb) hB hf
+      · simp at hk
+    · rw [List.getElem?_set] at hk
+      split at hk
+      · split at hk
+        · have hz : z = x' := by simpa using hk.symm
+          subst hz
+          exact heqx b blk (by omega) (by rw [← hxb]; exact hb) hB hf
+        · simp at hk
+      · exact h.ownerEq k z b blk hk hn hb hB hf
+  freedEq := h.freedEq
+
+end InvA
+
+namespace Inv
+
+variable {c : Cfg} {B : List Block} {A : List (Option Arr)}
+
+/-- a returned block is appended to the heap: nothing points to it (a constructor that cleaned up after itself) -/
+theorem append_freed (h : Inv c B A) {blk : Block} (hfr : blk.freed = true) (hok : FreedOK c blk) :
+    Inv c (B ++ [blk]) A where
+  valid := by
+    intro k x hk hxn
+    obtain ⟨b, bk, hb, hB, r⟩ := h.valid k x hk hxn
+    have hlt : b < B.length := (List.getElem?_eq_some_iff.mp hB).1
+    exact ⟨b, bk, hb, by rw [List.getElem?_append_left hlt]; exact hB, r⟩
+  owned := by
+    intro b bk hB hf
+    by_cases hb : b < B.length
+    · rw [List.getElem?_append_left hb] at hB
+      exact h.owned b bk hB hf
+    · have hb2 : b < (B ++ [blk]).length := (List.getElem?_eq_some_iff.mp hB).1
+      have hbe : b = B.length := by simp at hb2; omega
+      subst hbe
+      rw [List.getElem?_concat_length] at hB
+      have : bk = blk := by simpa using hB.symm
+      subst this
+      rw [hfr] at hf; cases hf
+  freed := by
+    intro b bk hB hf
+    by_cases hb : b < B.length
+    · rw [List.getElem?_append_left hb] at hB
+      exact h.freed b bk hB hf
+    · have hb2 : b < (B ++ [blk]).length := (List.getElem?_eq_some_iff.mp hB).1
+      have hbe : b = B.length := by simp at hb2; omega
+      subst hbe
+      rw [List.getElem?_concat_length] at hB
+      have : bk = blk := by simpa using hB.symm
+      subst this
+      exact hok
+
+end Inv
+
 end Ledger
 end Multi
